@@ -207,7 +207,10 @@ func createNestedFunc(
 	return rel.NewNativeFunction(
 		name+strconv.Itoa(nArgs),
 		func(ctx context.Context, parent rel.Value) (rel.Value, error) {
-			return createNestedFunc(name, nArgs-1, f, fnArgs{args: append(args.args, parent), ctx: ctx})
+			// Copy: calls of the same partial application must not share the slot
+			// behind args.args (they may run concurrently).
+			next := append(args.args[:len(args.args):len(args.args)], parent)
+			return createNestedFunc(name, nArgs-1, f, fnArgs{args: next, ctx: ctx})
 		}), nil
 }
 
